@@ -11,6 +11,11 @@ CORPUS = [
     ("(set (r (tag e c 0 int)) (r (tag e c 1 bool)))", "(seq (i 1) (b 1))"),                  # SET order by outermost tag
     ("(set (r (tag e c 1 bool)) (r (tag e c 0 int)))", "(seq (b 1) (i 1))"),
     ("(setof (str 4))", "(of (s 6162) (s 61) (s 616200) (s 6161))"),                          # SET OF padded order
+    # CER static order: the CHOICE counts as UNIVERSAL 4 (its smallest outermost tag), between BOOLEAN and NULL
+    ("(set (r bool) (r null) (r (choice (r (tag e c 5 int)) (r (str 4)))))", "(seq (b 1) null (ch 1 (s 7a7a)))"),
+    ("(set (r bool) (r null) (r (choice (r (tag e c 5 int)) (r (str 4)))))", "(seq (b 1) null (ch 0 (i 5)))"),
+    # DER dynamic order: an untagged CHOICE whose chosen alternative is a tagged CHOICE counts with that tag
+    ("(set (r bool) (r (str 4)) (r (choice (r (tag e c 1 (choice (r int) (r (str 12))))) (r null))))", "(seq (b 1) (s 41) (ch 0 (ch 0 (i 5))))"),
     ("(seq (r int) (d (of (i 1) (i 2)) (seqof int)))", "(seq (i 5) (of))"),                   # DEFAULT of constructed type: empty value, non-empty default
     ("(seq (r int) (d (seq (i 9)) (tag i c 1 (seq (o int)))))", "(seq (i 5) (seq absent))"),
     ("(seq (r int) (d (of (i 1) (i 2)) (seqof int)))", "(seq (i 5) (of (i 1) (i 2)))"),
@@ -109,6 +114,22 @@ def cer_form_errors(case, data):
                     errs.append('nested constructed string segment')
                 if any(s != 1000 for s in sizes[:-1]) or not sizes or not (0 < sizes[-1] <= 1000):
                     errs.append('string segments of sizes %r' % sizes)
+        if b[0] == 'set':
+            # X.690 9.3: members in the order of their tags (X.680 8.6: class, then number); an untagged CHOICE counts
+            # with the smallest of the tags its alternatives may go out under, whichever alternative is chosen
+            rank = {'u': 0, 'a': 1, 'c': 2, 'p': 3}
+            keys = []
+            for c in n.get('children', []):
+                for kind, dflt, ft in b[1]:
+                    o = gen.outer_tags(ft)
+                    if o is not None and c['tag'] in o:
+                        keys.append(min((rank[cl], num) for cl, num in o))
+                        break
+                else:
+                    keys = None
+                    break
+            if keys is not None and keys != sorted(keys):
+                errs.append('SET members not in the static order of their tags: %r' % (keys,))
         if b[0] == 'setof':
             encs = [data[c['start']:c['end']] for c in n.get('children', [])]
             if encs:
@@ -137,6 +158,20 @@ def check_case(rep, drv, case, rng=None):
         rep.fail(sig or 'der-differs-from-x690', 'DER %s, X.690 reference %s' % (ie[1].hex()[:160], ref.hex()[:160]),
                  dict(case.replay, kind='der', impl=ie[1].hex(), reference=ref.hex()))
     rep.count('der-compared')
+    # ---- the other way of handing the value to the encoder: its plain Python form plus the type
+    if ie[0] == 'ok' and ref is not None and ie[1] == ref and not sigs._has_default_member(case.t):
+        # (DEFAULT members given as Python values are compared with their defaults differently: C17's subject)
+        try:
+            from pyasn1.codec.native import encoder as native_encoder
+            tree = native_encoder.encode(case.fresh_obj())
+            viaspec = bytes(codec.ENC['der'].encode(tree, asn1Spec=case.schema))
+        except Exception:  # noqa
+            viaspec = None              # what the native form can express is C17's matter
+        if viaspec is not None:
+            rep.count('der-compared-python-value')
+            if viaspec != ref and not sigs.t11(case) and not sigs.has_real_default(case.t) and not sigs.contains_real(case.t):
+                rep.fail('der-of-python-value-differs-from-x690', 'DER of the Python value with asn1Spec %s, X.690 reference %s'
+                         % (viaspec.hex()[:160], ref.hex()[:160]), dict(case.replay, kind='der-python-value', impl=viaspec.hex(), reference=ref.hex()))
     # ---- BER and CER output denotes the value (independent reader = the model's X.690 reader)
     modes = [('ber', True, 0), ('ber', False, 0), ('cer', False, 1000)]
     if rng is not None:
